@@ -65,6 +65,8 @@ def kf_match(entry, pid, v):
 
 def write_replay(pid, v, name=None):
     d = os.path.join(common.VERIF, "replays", pid)
+    if common.REPO != "/repo":
+        d = os.path.join(common.WORK, "replays-other-tree", pid)      # runs against scratch copies do not litter replays/
     os.makedirs(d, exist_ok=True)
     body = {"property": pid, "kind": v.get("kind"), "facts": v.get("facts", {}),
             "case": v.get("case"), "detail": v.get("detail")}
